@@ -26,11 +26,25 @@ func Flatten(document *Document, node Node) Nodes {
 
 	result := Nodes{}
 
-	Filter(node, document, func(node Node) (newNode Node, traverseChildren bool) {
+	// This must not use Filter because that makes a copy of the nodes into the
+	// document, which adds families to it.
+	walkNodes(node, func(node Node) {
 		result = append(result, node)
-
-		return node, true
 	})
 
 	return result
+}
+
+// walkNodes calls fn for the node and then all of its descendants (in the same
+// order as Filter) without copying or modifying anything.
+func walkNodes(node Node, fn func(node Node)) {
+	if IsNil(node) {
+		return
+	}
+
+	fn(node)
+
+	for _, child := range node.Nodes() {
+		walkNodes(child, fn)
+	}
 }
